@@ -3,6 +3,7 @@ package run
 import (
 	"context"
 	"fmt"
+	"hash/fnv"
 	"strings"
 	"time"
 
@@ -55,8 +56,15 @@ func Optimizers(name string) []logicalplan.Optimizer {
 }
 
 // Store builds the instrumented storage for a scenario's dataset.
+// Store builds the storage of a scenario. In every other scenario (a pure function of its id) the
+// storage hands out only the samples inside the time range of the querier that was opened, as a
+// TSDB does - series without a sample in that range then come back empty.
 func Store(sc *scn.Scenario) *vstore.Store {
-	return vstore.New(SeriesOf(sc, sc.Data))
+	st := vstore.New(SeriesOf(sc, sc.Data))
+	h := fnv.New32a()
+	h.Write([]byte(sc.ID))
+	st.Trim = h.Sum32()%2 == 1
+	return st
 }
 
 func SeriesOf(sc *scn.Scenario, data []scn.DSeries) []vstore.Series {
